@@ -18,6 +18,7 @@ package types
 //@   ensures [cases spec.nat_l(x) 0..8] complete: (len(data) >= int(spec.nat_len(x)) && forall(i, 0, 9, i < int(spec.nat_len(x)) ==> data[i] == spec.nat_byte(x, uint64(i)))) ==> (result1 == nil && result0 == x)
 // ---- the protocol codec's decoder (C13, C14) ----
 //@ pred wf_dec(d) = d != nil && d.buf != nil && d.buf.i >= 0 && d.buf.i <= int64(len(d.buf.s)) && len(d.buf.s) < 4294967296
+//@ stable ValidatorsCount CoresCount EpochLength AvailBitfieldBytes MaxLookupAge
 //@ pred params_ok() = ValidatorsCount >= 1 && ValidatorsCount <= 1023 && CoresCount >= 1 && CoresCount <= 341 && EpochLength >= 1 && EpochLength <= 600 && AvailBitfieldBytes >= 1 && AvailBitfieldBytes <= 43 && MaxLookupAge >= 1 && MaxLookupAge <= 14400
 
 //@ func (*Decoder).decodeUintFromReader
